@@ -37,9 +37,16 @@ Definition ops_same (a b : list op) : bool := same_set op_same a b && Nat.eqb (l
 
 (* the generated server may mount one (method, pattern) twice (two endpoints on one
    route): compare the mount tables as they are *)
-Definition case_ok (c : nat * mdesign * list op * list op * list op) : bool :=
-  match c with (_, m, srv, o3, o2) =>
-    ops_same (server_ops (mounted m)) srv && ops_same (doc3_ops (visible m)) o3 && ops_same (doc2_ops (visible m)) o2 end.
+Definition vk_eqb (a b : verb * path) : bool := verb_eqb (fst a) (fst b) && path_eqb (snd a) (snd b).
 
-Definition mismatches (cs : list (nat * mdesign * list op * list op * list op)) : list nat :=
-  flat_map (fun c => if case_ok c then [] else [fst (fst (fst (fst c)))]) cs.
+(* a case: index, the finalized design with its marks, the mount table, the operations of
+   openapi3.json and of openapi.json (on basePath + key), and openapi.json as written:
+   its basePath and its (method, path key) pairs *)
+Definition case_ok (c : nat * mdesign * list op * list op * list op * (path * list (verb * path))) : bool :=
+  match c with (_, m, srv, o3, o2, (bp, keys)) =>
+    ops_same (server_ops (mounted m)) srv && ops_same (doc3_ops (visible m)) o3 && ops_same (doc2_resolved (visible m) (doc2_ops (visible m))) o2 &&
+    path_eqb (norm (v2_base (visible m))) bp &&
+    same_set vk_eqb (doc2_written (visible m) (doc2_ops (visible m))) keys end.
+
+Definition mismatches (cs : list (nat * mdesign * list op * list op * list op * (path * list (verb * path)))) : list nat :=
+  flat_map (fun c => if case_ok c then [] else [fst (fst (fst (fst (fst c))))]) cs.
